@@ -42,7 +42,7 @@ def whyS (c : ClassD) : Stmt → List String
   | .setLoc n e => tagIf (isPort c n || isState c n || (lookup c.consts n).isSome || (lookup c.params n).isSome) "name-clash" ++ whyV c e
   | .setAttr n e => tagIf (!(isState c n)) "new-attr" ++ tagIf (isPort c n || (lookup c.params n).isSome) "name-clash" ++
       tagIf (!c.isSeq) "state-in-comb" ++ whyV c e
-  | .put w e => tagIf (!(isOutPort c w)) "write-non-output" ++ tagIf c.isSeq "put-in-clock" ++ whyV c e ++
+  | .put w e => tagIf (!(isOutPort c w)) "write-non-output" ++ whyV c e ++
       tagIf (!(wideAssign c w e)) "narrow-assign"
   | .prep w e => tagIf (!(isOutPort c w)) "write-non-output" ++ tagIf (!c.isSeq) "prepare-in-propagate" ++ whyV c e ++
       tagIf (!(wideAssign c w e)) "narrow-assign"
@@ -59,7 +59,7 @@ def whyClass (c : ClassD) : List String :=
   tagIf (!((newVars c).all (fun n => !(c.params.map (·.1)).contains n && n != c.clk))) "name-clash" ++
   tagIf (!(c.state.all (fun (_, v) => decide (0 ≤ v)) && c.inits.all (fun (_, v) => decide (0 ≤ v)))) "neg-const" ++
   tagIf (!(c.state.all (fun (n, v) => lastVal c.inits n == some v) && c.inits.all (fun (n, _) => isState c n))) "init-mismatch" ++
-  tagIf (!(c.isSeq || (getsS c.body).all (fun w => !(putsS c.body).contains w))) "read-after-put"
+  tagIf (!(c.isSeq || noFeedback c.body)) "comb-feedback"
 
 def reasons (c : ClassD) : List String := dedup (whyClass c ++ whyS c c.body)
 
